@@ -146,7 +146,7 @@ def check_one(res: Result, cfg: dict[str, Any], m: ref.Model, hist: list[Any], e
         res.seen("positive_kinds", sent[0])
     for how, exc, text in client_verdict(q, sent):
         res.violate(
-            f"C14|client-rejects|{how}|{exc}|sid={_cat(m, sid)}|reply={_rcls(sent)}|len={_lencls(q)}",
+            f"C14|client-rejects|{how}|{exc}|sid={_cat(m, sid)}|reply={_rcls(sent)}",
             f"parse_pdu(reply={sent[:16].hex()}{'..' if len(sent) > 16 else ''}, {how} request {q[:12].hex()}{'..' if len(q) > 12 else ''}) -> {exc}: {text} :: {where}",
             {"cfg": cfg, "hist": [list(e) for e in hist], "request": q.hex(), "mode": where},
         )
